@@ -69,8 +69,14 @@ func genLayCase(r *rng.R, id int, base string) *layCase {
 	// every 10th case pins `output:file @cwd/…` together with a relative -cwd given from the parent directory (and a
 	// converter in a sub-directory)
 	pinCwd := id%10 == 7
+	// every 10th case pins two converters writing ONE file whose package settings agree on the path while only one of them
+	// names the package (the target package does not exist yet): the clauses differ, so the run must be refused
+	pinShared := id%10 == 3
+	if pinShared {
+		n = 2
+	}
 	// a GLOBAL relative output:file (-g): resolved per converter against the directory of ITS declaring file
-	if r.Chance(20) && !pinCwd {
+	if r.Chance(20) && !pinCwd && !pinShared {
 		lc.Global = []string{"output:file ./gx/out.go"}
 		n = 2 + r.Intn(2)
 	}
@@ -89,6 +95,11 @@ func genLayCase(r *rng.R, id int, base string) *layCase {
 		}
 		if pinCwd && i == 0 {
 			kk = 6
+		}
+		if pinShared {
+			kk, j = 4, 0
+			cv.Pkg, cv.Vars = pkgs[0], false
+			cv.File = fmt.Sprintf("%s/conv%d.go", cv.Pkg, i)
 		}
 		switch k := kk; {
 		case k == 100:
@@ -119,7 +130,12 @@ func genLayCase(r *rng.R, id int, base string) *layCase {
 		if len(lc.Global) > 0 {
 			pk = 5
 		}
+		if pinShared {
+			pk = []int{3, 1}[(i+id/10)%2]
+		}
 		switch pk {
+		case 3:
+			cv.Lines = append(cv.Lines, "output:package "+lc.Module+"/x/y")
 		case 0:
 			cv.Lines = append(cv.Lines, "output:package "+lc.Module+"/x/y-z")
 		case 1:
@@ -127,7 +143,7 @@ func genLayCase(r *rng.R, id int, base string) *layCase {
 		case 2:
 			cv.Lines = append(cv.Lines, "output:package :nm")
 		}
-		if (r.Chance(30) || (len(lc.Global) > 0 && r.Chance(70))) && targetDir != "" && lc.Existing[targetDir] == "" && !strings.HasPrefix(targetDir, "..") {
+		if !pinShared && (r.Chance(30) || (len(lc.Global) > 0 && r.Chance(70))) && targetDir != "" && lc.Existing[targetDir] == "" && !strings.HasPrefix(targetDir, "..") {
 			name := rng.Pick(r, []string{"realname", "other", filepath.Base(targetDir)})
 			lc.Tree[targetDir+"/existing.go"] = "package " + name + "\n"
 			lc.Existing[targetDir] = name
